@@ -131,12 +131,19 @@ func (e *eng) checkOne(g graph.EditableGraph, rep string, en *entry, after strin
 	if !eqInts(deg, want) {
 		r.Fail("Degrees", rep+".Degrees", "after %s: %s Degrees() = %v, want %v (%s)", after, what, deg, want, m)
 	}
+	degCopy := append([]int(nil), deg...)
+	for i := range deg {
+		deg[i] = -99 // what an observer returns belongs to the caller: scribbling on it must not reach the graph
+	}
 	for v := 0; v < m.n; v++ {
 		var nb []int
 		v := v
 		r.Must(rep+".Neighbours", budget, func() { nb = g.Neighbours(v) })
 		if !eqInts(nb, m.neighbours(v)) {
 			r.Fail("Neighbours", rep+".Neighbours", "after %s: %s Neighbours(%d) = %v, want %v (%s)", after, what, v, nb, m.neighbours(v), m)
+		}
+		for i := range nb {
+			nb[i] = -77 // see above
 		}
 		for u := 0; u < m.n; u++ {
 			var ie bool
@@ -148,7 +155,7 @@ func (e *eng) checkOne(g graph.EditableGraph, rep string, en *entry, after strin
 		}
 	}
 	r.Obs(uint64(n), uint64(mm))
-	r.ObsInts(deg)
+	r.ObsInts(degCopy)
 }
 
 func (e *eng) checkAll(after string) {
